@@ -392,6 +392,10 @@ def step (st : St) (line : String) : St × String :=
        (st, s!"ts init={b01 ts.initiator} rs={optHex ts.getRemoteStatic} rn={ts.receivingNonce.toNat} sn={ts.sendingNonce.toNat}")
      | some (.sts _ ts) => (st, s!"sts init={b01 ts.initiator} rs={optHex ts.getRemoteStatic}")
      | _ => (st, "nosession"))
+  | "raw_split" =>
+    (match st.get (nat 1) with
+     | some (.hs S hs) => (st, s!"ok {hex (hs.rawSplit S).1} {hex (hs.rawSplit S).2}")
+     | _ => (st, "nosession"))
   | "to_transport" | "to_stateless" =>
     (match st.get (nat 1) with
      | some (.hs S hs) =>
